@@ -51,6 +51,23 @@ NEEDS = {
              "workers they run on pickled copies. Objective values differ.",
     "C20-e": "completion order: detailed-evaluation results collected in arrival order; needs a front of >= 2 mappings, "
              "> 1 worker and out-of-order completion. Only the row order of the returned front changes.",
+    # ---- third round (agents were told what rounds 1 and 2 had produced)
+    "C32-c": "unusual input: 'run identical jobs once' keyed by (func, args, kwargs) through a dict; jobs whose "
+             "arguments compare and hash equal although they are different values (1 / True / 1.0, 0.0 / -0.0) get the "
+             "first such job's result; n identical impure jobs are executed once. Independent of worker count and "
+             "completion order.",
+    "C27-d": "multi-step history: energy and throughput are costed in *different* calls (one call with exactly one of "
+             "them off), then a later call requests both on a component with a non-unit scale: the fused per-action "
+             "block is guarded by need_energy OR need_throughput but re-applies whatever was requested.",
+    "C14-f": "unusual input + configuration: a memory whose own bits_per_value is wider than the workload's, sized "
+             "between 'all tensors fit at the workload's width' and 'all tensors fit at the memory's width', metrics "
+             "without RESOURCE_USAGE and the default make stage (can_combine_multiple_runs=False): the memory is judged "
+             "never to overflow, goes untracked, and the staged join returns an over-capacity mapping.",
+    "C15-d": "history: decompress_pmappings clears the caller's DecompressData; the first decompression after a "
+             "compression is exact, a second selection decompressed from the same compression raises StopIteration.",
+    "C20-f": "history + aliasing: an in-process memo in front of the cache_dir lookup (complete key) hands out the same "
+             "mutable MultiEinsumPmappings each time; needs cache_dir, two equal calls in one process and the caller "
+             "editing the object it was handed (drop_einsums) in between; a fresh process on the same cache_dir is correct.",
 }
 
 
@@ -58,9 +75,10 @@ def main(confirm_dir, official_dir):
     baseline = json.load(open("/root/.vp/BASELINE.json"))
     stable = set(baseline["stable_pass"])
     rows = []
+    only = set(sys.argv[3:])
     for mid in sorted(NEEDS):
         d = os.path.join(VERIF, "seeded", mid)
-        if not os.path.isdir(d):
+        if not os.path.isdir(d) or (only and mid not in only):
             continue
         prop = mid.split("-")[0]
         meta = {"id": mid, "breaks_property": prop, "needs_to_manifest": NEEDS[mid],
@@ -92,8 +110,10 @@ def main(confirm_dir, official_dir):
             vio = [l for l in log if l.startswith("VIOLATION")]
             cls = [l.strip() for l in log if l.strip().startswith("class=")]
             head = next((l for l in log if l.startswith(f"[{prop}] tier=")), "")
+            cmdf = os.path.join(official_dir, mid + ".cmd")
             meta["check_run_against_repo_with_patch"] = {
-                "command": f"selftest/try_patch.sh seeded/{mid}/patch.diff {prop} quick   (git -C /repo apply; "
+                "command": open(cmdf).read().strip() if os.path.exists(cmdf) else
+                           f"selftest/try_patch.sh seeded/{mid}/patch.diff {prop} quick   (git -C /repo apply; "
                            f"./check {prop} --tier quick; git -C /repo checkout -- .)",
                 "summary_line": head,
                 "caught": bool(vio),
